@@ -14,6 +14,12 @@ def run(tier):
         dict(kind="named:light", n=3, cfg=dict(CFG), hidden=True, d=2, persistent=P2, assertions=0, judge="c18", extra=extra_q),
         dict(kind="named:light", n=4, cfg=dict(CFG, extras=False), hidden=False, d=1, persistent=P2, assertions=1, judge="c18", extra=extra),
     ]
+    # the two mixins must also agree for user classes with value semantics / their own truth value
+    for k2, k1 in (("trap:eq", "trap:light:eq"), ("trap:falsy", "trap:light:falsy")):
+        cfgs.append(dict(kind=k1, n=3, cfg=dict(CFG), hidden=False, d=1, assertions=0, judge="c18",
+                         extra={"kind2": k2, "traps": False, "exporters": False}))
+        cfgs.append(dict(kind=k1, n=4, cfg=dict(CFG, extras=False, read=False), hidden=False, d=0, assertions=0, judge="c18",
+                         extra={"kind2": k2, "traps": False, "exporters": False}))
     for fl in ("tree", "loop", "value"):
         cfgs.append(dict(kind="named:light", n=3, cfg=dict(CFG, extras=False), hidden=False, d=1, persistent=P2, assertions=0,
                          judge="c18", extra=extra, flavour=fl))
